@@ -532,7 +532,13 @@ func Run(rc *core.RunCtx) {
 			nextID++
 			o := &opState{id: id, startSeq: seq.Add(1), wantFrame: initSent}
 			var query string
-			switch t.Choose(8, "opkind") {
+			switch t.Choose(10, "opkind") {
+			case 8:
+				o.kind, o.isStream = "sub-opdirective-panic", true
+				query = fmt.Sprintf("subscription Op%s @opguard(mode:\"panic\") { ticks(n: 1) }", id)
+			case 9:
+				o.kind, o.isStream = "sub-opdirective-error", true
+				query = fmt.Sprintf("subscription Op%s @opguard(mode:\"error\") { ticks(n: 1) }", id)
 			case 7:
 				o.kind, o.isStream = "sub-events-marshal-panic", true
 				query = fmt.Sprintf("subscription Op%s { events { id blob } }", id)
@@ -691,7 +697,7 @@ func Run(rc *core.RunCtx) {
 							flag("operation-context-not-cancelled", "operation %s was stopped by the client but its context is still live at a settled point", id)
 						}
 					}
-					if !o.isStream && o.wantFrame && !term {
+					if (!o.isStream || strings.HasPrefix(o.kind, "sub-opdirective")) && o.wantFrame && !term {
 						flag("operation-not-terminated", "operation %s (%s) has no complete or error frame at a settled point", id, o.kind)
 					}
 				}
@@ -891,11 +897,25 @@ func Run(rc *core.RunCtx) {
 			}
 		}
 	}
+	// an operation whose @opguard directive panics is recovered once, if the server got to it: it
+	// did when a frame for its id was written (error/complete)
+	// ... it certainly did when a frame for its id was written; it may have even if the connection
+	// ended before that frame could be written
+	opPanicsSeen, opPanicsSent := 0, 0
+	for _, id := range opOrder {
+		if o := opsByID[id]; o.kind == "sub-opdirective-panic" {
+			opPanicsSent++
+			if len(perID[id]) > 0 {
+				opPanicsSeen++
+			}
+		}
+	}
 	thrown := int(u.PanicsThrown.Load())
-	if got := int(panicsRecovered.Load()); got != wantRec+thrown {
-		rc.Fail("recover-count", "recover", "RecoverFunc invoked %d times for %d serialisation panics and %d resolver panics\n%s", got, wantRec, thrown, desc())
+	if got := int(panicsRecovered.Load()); got < wantRec+thrown+opPanicsSeen || got > wantRec+thrown+opPanicsSent {
+		rc.Fail("recover-count", "recover", "RecoverFunc invoked %d times for %d serialisation panics, %d resolver panics and %d..%d panicking operation directives\n%s", got, wantRec, thrown, opPanicsSeen, opPanicsSent, desc())
 		return
 	}
+	w.CountN("operation_directive_panics", opPanicsSeen)
 	w.CountN("resolver_panics", thrown)
 	w.CountN("serialisation_panics", wantRec)
 	if n := closeCalls.Load(); n > 1 || (ackSeen && n != 1) {
